@@ -108,16 +108,17 @@ def obligations(cx):
               statement="gamma_1 of the relabelled mixture is the Abrams-Prausnitz gamma_2 of the original: the asymmetry comes only from the documented wrong bracket of gamma_2")
     # ------------------------------------------------------------------ flux solver: lock-step swap over the loop (get_partial_pressures by contract + its swap lemma)
     ctr = {'get_partial_pressures': CF.gpp_contract, 'Membrane.get_permeance': CF.get_permeance_contract}
-    for mode in C2.MODES:
-        for given in (True, False):
+    for mode, given, units in [(mo, g, 'kg/(m2*h*kPa)') for mo in C2.MODES for g in (True, False)] + [('vacuum', True, 'SI'), ('temperature', True, 'GPU')]:
+        if True:
+            # explicit permeances stated in other units: whatever the solver does with the unit label, it must do it to both components alike
             ma = W.mixture(src); mb = W.mixture(src, swapped=True)
             pva = C2.pv_obj(src, ma, experiments=Opaque('experiments')); pvb = C2.pv_obj(src, mb, experiments=Opaque('experiments'))
-            fa, ba, _ = C2.cpf_bind(src, pva, mode, 'NRTL', given, P=(C2.P1, C2.P2), feed=W.composition(src, C2.Xf, 'weight'))
-            fb, bb, _ = C2.cpf_bind(src, pvb, mode, 'NRTL', given, P=(C2.P2, C2.P1), feed=W.composition(src, 1 - C2.Xf, 'weight'))
+            fa, ba, _ = C2.cpf_bind(src, pva, mode, 'NRTL', given, P=(C2.P1, C2.P2), feed=W.composition(src, C2.Xf, 'weight'), units=units)
+            fb, bb, _ = C2.cpf_bind(src, pvb, mode, 'NRTL', given, P=(C2.P2, C2.P1), feed=W.composition(src, 1 - C2.Xf, 'weight'), units=units)
             LA, LB = flatten(ma), flatten(mb)
             lems = [swap_lemma('pp1', 'pp2', LA, LB, gpp_premise), swap_lemma('pp2', 'pp1', LA, LB, gpp_premise)]
             ya, yb, da, db = var('y_a'), var('y_b'), var('d_a'), var('d_b')
-            lockstep.run_pair(cx, "solver.%s.%s" % (mode, 'given' if given else 'default'), (fa, ba), (fb, bb), band(eq(yb, 1 - ya), eq(db, da)),
+            lockstep.run_pair(cx, "solver.%s.%s%s" % (mode, 'given' if given else 'default', '' if units.startswith('kg') else '.' + units), (fa, ba), (fb, bb), band(eq(yb, 1 - ya), eq(db, da)),
                               lambda r1, r2: band(eq(r2[0], r1[1]), eq(r2[1], r1[0])), ctr, C2.BASE + [C2.PREC > 0], lemmas=lems)
     # ------------------------------------------------------------------ ideal processes: step specs with the roles exchanged
     A_, DT = procs.A_, procs.DT
@@ -192,7 +193,7 @@ def replay_case(r):
     mode = 'temperature' if 'temperature' in nm else 'pressure' if 'pressure' in nm else 'vacuum'
     out = []
     for b, x, T in (('H2O_EtOH', 0.15, 333.15), ('H2O_MeOH', 0.4, 318.15), ('EtOH_ETBE', 0.3, 343.15), ('H2O_iPOH', 0.7, 353.15)):
-        c = dict(name=nm, builtin=b, model=model, mode=mode, x=x, T=T, Tp=T - 55.0, pp=0.6)
+        c = dict(name=nm, builtin=b, model=model, mode=mode, x=x, T=T, Tp=T - 55.0, pp=0.6, units='SI' if '.SI.' in nm else 'GPU' if '.GPU.' in nm else 'kg/(m2*h*kPa)')
         if nm.startswith('process.'):
             c['func'] = 'ideal_non_isothermal_process' if 'non_isothermal' in nm else 'ideal_isothermal_process'
             c['proc'] = dict(x0=x, T0=T, Tp=T - 55.0, pp=0.6, program='.program' in nm, A=0.4, m0=1.5, N=4, dt=0.2)
